@@ -195,6 +195,7 @@ S1 == <<<<1, 1>>>>
 S2 == <<<<2, 2>>>>
 S12 == <<<<1, 2>>>>
 S13 == <<<<1, 1>>, <<3, 3>>>>
+S123 == <<<<1, 3>>>>      \* a single range that spans the gap of S13 (a set that covers only the END POINTS of another)
 F1 == "\\seen"
 F2 == "kw1"
 H1 == [k |-> "subject", v |-> "n1"]
@@ -209,8 +210,8 @@ Fields == {"seq", "uid", "since", "before", "sentsince", "sentbefore", "header",
            "text", "flag", "notflag", "larger", "smaller", "not", "or"}
 
 Values(f) ==
-  CASE f = "seq" -> {<<>>, <<S1>>, <<S12>>, <<S2, S12>>, <<S13>>}
-    [] f = "uid" -> {<<>>, <<S1>>, <<S12>>, <<S2, S12>>, <<S13>>, <<SRes>>, <<SRes, S12>>}
+  CASE f = "seq" -> {<<>>, <<S1>>, <<S12>>, <<S2, S12>>, <<S13>>, <<S123>>}
+    [] f = "uid" -> {<<>>, <<S1>>, <<S12>>, <<S2, S12>>, <<S13>>, <<S123>>, <<SRes>>, <<SRes, S12>>}
     [] f \in {"since", "before", "sentsince", "sentbefore"} -> {0, 2, 3, 4}
     [] f = "header" -> Lists2(H1, H2)
     [] f \in {"body", "text"} -> Lists2("n1", "n2")
